@@ -251,8 +251,107 @@ fn run_s(line: &str) -> String {
     format!("{} ; {} ; {} ; {}/{}/{}/{}", trace.join(" "), rs.join("|"), if out.all_finished { 1 } else { 0 }, fd, fu, fz(gv), gu)
 }
 
+// (X) free-running stress, no scheduler: `X <threads> <incs per thread> <value> <mode 0 raw | 1 State::flush | 2 alternate>`
+//   <threads> updater threads increment counter `c` <incs> times by <value> and set gauge `g` to their index, while
+//   one thread flushes in a loop; after the join the main thread sets the gauge to 424242, and the flusher's
+//   last flushes run. stdout: `X <sum of all deltas mod 2^64> <largest delta> <flushes> <non-zero deltas> <last gauge value>`
+fn run_x(line: &str) -> String {
+    use std::sync::atomic::{AtomicBool, Ordering};
+    let f: Vec<&str> = line.split_whitespace().collect();
+    let threads: usize = f[1].parse().unwrap();
+    let incs: u64 = f[2].parse().unwrap();
+    let value: u64 = f[3].parse().unwrap();
+    let mode: u32 = f[4].parse().unwrap();
+    let mut d = Driver::new(Config {
+        aggressive: false,
+        histogram_sampling: false,
+        histogram_reservoir_size: 16,
+        histograms_as_distributions: false,
+        global_labels: Vec::new(),
+        global_prefix: None,
+        max_payload_len: 8192,
+        length_prefixed: false,
+    });
+    let ck = Key::from_name("c");
+    let gk = Key::from_name("g");
+    let counter = d.counter(&ck);
+    let gauge = d.gauge(&gk);
+    let rawc = d.raw_counter(&ck);
+    let rawg = d.raw_gauge(&gk);
+    let stop = Arc::new(AtomicBool::new(false));
+    let mut hs = Vec::new();
+    for t in 0..threads {
+        let (counter, gauge) = (counter.clone(), gauge.clone());
+        hs.push(std::thread::spawn(move || {
+            for i in 0..incs {
+                counter.increment(value);
+                if i % 64 == 0 {
+                    gauge.set(t as f64);
+                }
+            }
+        }));
+    }
+    let stop2 = stop.clone();
+    let flusher = std::thread::spawn(move || {
+        let (mut sum, mut max, mut flushes, mut nonzero, mut lastg) = (0u64, 0u64, 0u64, 0u64, String::from("?"));
+        let mut round = 0u64;
+        let mut extra = 0u32;
+        loop {
+            let finishing = stop2.load(Ordering::SeqCst);
+            let use_state = mode == 1 || (mode == 2 && round % 2 == 1);
+            round += 1;
+            flushes += 1;
+            if use_state {
+                let (ps, _) = d.flush_once(0);
+                for p in &ps {
+                    if p.starts_with(b"c:") {
+                        let v: u64 = payload_value(p).parse().unwrap_or(u64::MAX);
+                        sum = sum.wrapping_add(v);
+                        max = max.max(v);
+                        if v != 0 {
+                            nonzero += 1;
+                        }
+                    } else if p.starts_with(b"g:") {
+                        lastg = payload_value(p).parse::<f64>().map(fz).unwrap_or_else(|_| "?".to_string());
+                    }
+                }
+            } else {
+                let (v, _) = rawc.flush();
+                sum = sum.wrapping_add(v);
+                max = max.max(v);
+                if v != 0 {
+                    nonzero += 1;
+                }
+                lastg = fz(rawg.flush().0);
+            }
+            if finishing {
+                // three more rounds after the stop flag was seen: the first may still find data, the others must not
+                extra += 1;
+                if extra >= 3 {
+                    break;
+                }
+            }
+        }
+        (sum, max, flushes, nonzero, lastg)
+    });
+    for h in hs {
+        h.join().unwrap();
+    }
+    gauge.set(424242.0);
+    stop.store(true, Ordering::SeqCst);
+    let (sum, max, flushes, nonzero, lastg) = flusher.join().unwrap();
+    format!("X {} {} {} {} {}", sum, max, flushes, nonzero, lastg)
+}
+
+// only the storage.rs sites take part in the schedule; the registry's own yield points (6xx, C06) inside
+// State::flush are passed through (the registry is not part of this model)
+fn c10_site(site: u32) -> bool {
+    (1001..=1014).contains(&site)
+}
+
 fn main() {
     std::panic::set_hook(Box::new(|_| {}));
+    sched::set_site_filter(Some(c10_site));
     let stdin = std::io::stdin();
     let stdout = std::io::stdout();
     let mut w = std::io::BufWriter::new(stdout.lock());
@@ -261,7 +360,7 @@ fn main() {
         if line.trim().is_empty() {
             continue;
         }
-        let r = if line.starts_with('S') { run_s(&line) } else { run_o(&line) };
+        let r = if line.starts_with('S') { run_s(&line) } else if line.starts_with('X') { run_x(&line) } else { run_o(&line) };
         writeln!(w, "{}", r).unwrap();
     }
 }
